@@ -46,6 +46,7 @@ type Config struct {
 	AssumeLoops   map[string]bool // loops whose unwinding failure is pruned by assumption (spin loops)
 	Rounds        int
 	VisAll        bool // every heap access is a scheduling point (race mode)
+	SmallTables   int  // >0: constructors build tables of this many root buckets instead of 32
 	MaxDepth      int
 	Trace         bool
 }
@@ -95,6 +96,7 @@ type Exec struct {
 	feasN     int // assumptions already sent to feas
 	FeasQ, FeasPruned, FeasCached, PrunedCalls int
 	feasModels []*Model
+	feasMemo   map[int]bool
 	FeasTime  time.Duration
 	FeasOff   bool
 	Prof      map[string]int
@@ -128,7 +130,7 @@ func NewExec(prog *ssa.Program, cfg Config) *Exec {
 		cfg.DefaultUnwind = 4
 	}
 	if cfg.MaxDepth == 0 {
-		cfg.MaxDepth = 60
+		cfg.MaxDepth = 120
 	}
 	if cfg.Unwind == nil {
 		cfg.Unwind = map[string]int{}
@@ -551,6 +553,10 @@ func (x *Exec) CallFunction(fn *ssa.Function, args []Value, binds []Value, g *Te
 	}
 	if len(fn.Blocks) == 0 {
 		x.fail("function %s has no body and no stub", fn.String())
+	}
+	if x.depth > 14 && x.depth%3 == 0 && !x.feasible(x.act(g)) {
+		// deep (re-entrant) call chain whose guard is unsatisfiable: not taken
+		return x.zeroResults(fn.Signature)
 	}
 	x.depth++
 	if x.depth > x.Cfg.MaxDepth {
@@ -1122,6 +1128,12 @@ func (x *Exec) feasible(g *Term) bool {
 	if g.IsTrue() || x.FeasOff {
 		return true
 	}
+	if x.feasMemo == nil {
+		x.feasMemo = map[int]bool{}
+	}
+	if r, ok := x.feasMemo[g.ID]; ok && !r {
+		return false // infeasible stays infeasible as assumptions only grow
+	}
 	if x.feas == nil {
 		s, err := NewSolver(x.U, "z3-new", 3000)
 		if err != nil {
@@ -1158,6 +1170,7 @@ func (x *Exec) feasible(g *Term) bool {
 	x.FeasQ++
 	if res == Unsat {
 		x.FeasPruned++
+		x.feasMemo[g.ID] = false
 		return false
 	}
 	return true
